@@ -804,9 +804,8 @@ func genC13(c *w1Case, r *simrt.Rng) {
 			g.out = append(g.out, model.Event{Kind: "abs", Code: hatAxis.Code, Value: v}, model.Event{Kind: "abs", Code: hatAxis.Code, Value: 0})
 		case hat && r.Chance(0.3):
 			v := []int32{-1, 0, 1, 0}[r.Intn(4)]
-			if v != 0 && (!g.canPressAction("panic") || g.actDown["panic"]) {
-				v = 0 // never a third action while a pair of keys is held, never key and hat on the same action
-			}
+			// (panic has no partner: a hat may trigger it while its key is down or a pair is held - every trigger is
+			// a panic of its own)
 			if v != hatPos {
 				hatPos = v
 				g.out = append(g.out, model.Event{Kind: "abs", Code: hatAxis.Code, Value: v})
@@ -821,9 +820,6 @@ func genC13(c *w1Case, r *simrt.Rng) {
 			}
 			g.out = append(g.out, model.Event{Kind: "midiin", Bytes: b})
 		case r.Chance(0.15):
-			if hatPos != 0 && !g.down[pk.Code] {
-				continue
-			}
 			if !g.down[pk.Code] && !g.canPressAction("panic") {
 				// "panic injected at every point of every key history": also while an up/down pair is held
 				g.key(pk.Code, 1)
